@@ -845,6 +845,30 @@ static int record_main(int argc, char** argv)
     return 0;
 }
 
+static void enum_visit(const json& v)
+{
+    const std::string name = v["name"].get<std::string>();
+    const auto& eo = registry::get().enums.at(name);
+    const std::uint64_t x = v["x"].get<std::uint64_t>();
+    const std::string exp = v["tag"].get<std::string>();
+    rep.note_distinct("enum" + name + std::to_string(x));
+    json cs = {{"enum", name}, {"x", x}, {"schema", g_schema}, {"expected", exp}};
+    const std::string got = eo.visit_tag(x);
+    if(got != exp)
+        rep.mismatch("visit/enum/" + g_schema + ":" + name,
+                     "visit(enum " + name + " = " + std::to_string(x) + ") reported tag " + got
+                         + ", schema says " + exp,
+                     cs);
+    else
+        rep.ok("visit-enum");
+    const std::string s2 = eo.to_string(x);
+    if(s2 != (exp == "unknown" ? std::string("(null)") : exp))
+        rep.mismatch("visit/enum_to_string/" + g_schema + ":" + name,
+                     "enum_to_string gave " + s2 + " for a value whose tag is " + exp, cs);
+    else
+        rep.ok("enum-to-string");
+}
+
 int main(int argc, char** argv)
 {
     if(argc >= 7 && std::string(argv[1]) == "record")
@@ -875,6 +899,8 @@ int main(int argc, char** argv)
                 }
                 else if(k == "visit")
                     visit_call(v);
+                else if(k == "enumvisit")
+                    enum_visit(v);
             });
         rep.finish();
         return 0;
